@@ -61,9 +61,12 @@ fn gen_scenario(rng: &mut Rng, ind: &str, out: &mut String, id: usize) {
     for k in 0..rng.range(0, 3) {
         let kw = ["Given", "When", "Then", "And"][k % 4];
         out.push_str(&format!("{ind}  {kw} {}\n", gen_text(rng, p_ph)));
-        if rng.chance(1, 5) {
+        // a doc string, a data table, or — the grammar accepts it — BOTH on one step
+        let doc = rng.chance(1, 4);
+        if doc {
             out.push_str(&format!("{ind}    \"\"\"\n{ind}    doc {}\n{ind}    \"\"\"\n", gen_text(rng, p_ph)));
-        } else if rng.chance(1, 5) {
+        }
+        if (doc && rng.chance(1, 3)) || (!doc && rng.chance(1, 5)) {
             for _ in 0..rng.range(1, 2) {
                 out.push_str(&format!("{ind}    | {} | {} |\n", gen_text(rng, p_ph).replace('|', ""), rng.pick(WORDS)));
             }
